@@ -143,8 +143,8 @@ Definition format_one (rest : string) (d : exps) : result (string * string) :=
     | String c r =>
       match key with
       | None =>
-        if Ascii.eqb c "%" then Ok ("%", r)          (* e.g. "%5%" *)
-        else if Ascii.eqb c "s" || Ascii.eqb c "r" || Ascii.eqb c "a" then Err EExpandBare
+        (* only an immediate "%%" is a literal percent sign; "%5%" is an error *)
+        if Ascii.eqb c "s" || Ascii.eqb c "r" || Ascii.eqb c "a" then Err EExpandBare
         else Err EExpandFormat
       | Some v =>
         if Ascii.eqb c "s" then
@@ -162,7 +162,6 @@ Definition format_one (rest : string) (d : exps) : result (string * string) :=
             let body := if z <? 0 then String "-" digs else digs in
             Ok (pad zero minus width true body, r)
           end
-        else if Ascii.eqb c "%" then Ok ("%", r)
         else Err EExpandFormat
       end
     end
@@ -491,6 +490,9 @@ Definition sort_by {A} (key : A -> Z * string) (l : list A) : list A := fold_rig
 Definition proc_key (p : proc) := (p_priority p, p_name p).
 Definition group_key (g : group) := (g_priority g, g_name g).
 
+(* parse_fcgi_socket: `if socket_mode is None: socket_mode = 0o700` *)
+Definition fcgi_default_mode : Z := 448.
+
 (* ============================================================ the reader *)
 Section Reader.
   (* `s % expansions` with its two failure kinds, see py_expand for the
@@ -555,38 +557,57 @@ Section Reader.
     k_numprocs : Z; k_envstr : string; k_ocap : Z; k_oev : bool; k_ecap : Z; k_eev : bool;
     k_serverurl : option string; k_uid : option Z; k_umask : option Z; k_pname : string }.
 
+  (* rewrite of the deprecated "syslog" magic file name; redirect_stderr
+     never keeps an stderr log file *)
+  Definition rewrite_syslog (l : logfile * Z * Z * bool) : logfile * Z * Z * bool :=
+    match l with
+    | (LSyslog, bu, mb, _) => (LNone, bu, mb, true)
+    | _ => l
+    end.
+
+  Definition mk_logcfg (l : logfile * Z * Z * bool) (cap : Z) (ev : bool) : logcfg :=
+    let '(lf, bu, mb, sy) := l in
+    {| l_file := lf; l_capture := cap; l_events := ev; l_syslog := sy; l_backups := bu; l_maxbytes := mb |}.
+
+  Definition no_stderr_file (redirect : bool) (l : logfile * Z * Z * bool) : logfile * Z * Z * bool :=
+    let '(lf, bu, mb, sy) := l in ((if redirect then LNone else lf), bu, mb, sy).
+
+  Definition mk_proc (k : common) (name command : string) (directory : gval)
+             (environment : list (string * string)) (o e : logfile * Z * Z * bool) : proc :=
+    {| p_class := k_class k; p_name := name; p_uid := k_uid k; p_command := command;
+       p_directory := gstr_opt directory; p_umask := k_umask k; p_priority := k_priority k;
+       p_autostart := k_autostart k; p_autorestart := k_autorestart k;
+       p_startsecs := k_startsecs k; p_startretries := k_startretries k;
+       p_stdout := mk_logcfg (rewrite_syslog o) (k_ocap k) (k_oev k);
+       p_stderr := mk_logcfg (no_stderr_file (k_redirect k) (rewrite_syslog e)) (k_ecap k) (k_eev k);
+       p_stopsignal := k_stopsignal k; p_stopwaitsecs := k_stopwaitsecs k;
+       p_stopasgroup := k_stopasgroup k; p_killasgroup := k_killasgroup k;
+       p_exitcodes := k_exitcodes k; p_redirect_stderr := k_redirect k;
+       p_environment := environment; p_serverurl := k_serverurl k |}.
+
+  (* the expansions in force at the end of the iteration for process_num = n *)
+  Definition step_exps (k : common) (penv ex : exps) (n : Z) (environment : list (string * string)) : exps :=
+    upd (upd (upd ex [("process_num", VI n); ("numprocs", VI (k_numprocs k))]) penv) (env_exps environment).
+
   (* one iteration of `for process_num in range(...)`; the expansions
      dictionary is one object mutated across iterations, hence threaded *)
   Definition loop_step (opts : options) (sect : string) (penv : exps) (k : common)
              (ex : exps) (process_num : Z) : result (proc * exps) :=
-    let ex := upd ex [("process_num", VI process_num); ("numprocs", VI (k_numprocs k))] in
-    let ex := upd ex penv in
-    envs <- expand (k_envstr k) ex ;;
+    envs <- expand (k_envstr k)
+                   (upd (upd ex [("process_num", VI process_num); ("numprocs", VI (k_numprocs k))]) penv) ;;
     environment <- dict_of_key_value_pairs envs ;;
-    let ex := upd ex (env_exps environment) in
-    let get := fun opt => saneget code_program [("Automatic", GAuto)] opts opt penv ex in
-    directory <- get "directory" ;;
-    ' (olf, obu, omb, osy) <- logfile_block opts penv ex ex "stdout" ;;
-    ' (elf, ebu, emb, esy) <- logfile_block opts penv ex ex "stderr" ;;
-    let '(olf, osy) := match olf with LSyslog => (LNone, true) | _ => (olf, osy) end in
-    let '(elf, esy) := match elf with LSyslog => (LNone, true) | _ => (elf, esy) end in
-    let elf := if k_redirect k then LNone else elf in
-    command <- get "command" ;;
+    directory <- saneget code_program [("Automatic", GAuto)] opts "directory" penv
+                         (step_exps k penv ex process_num environment) ;;
+    o <- logfile_block opts penv (step_exps k penv ex process_num environment)
+                       (step_exps k penv ex process_num environment) "stdout" ;;
+    e <- logfile_block opts penv (step_exps k penv ex process_num environment)
+                       (step_exps k penv ex process_num environment) "stderr" ;;
+    command <- saneget code_program [("Automatic", GAuto)] opts "command" penv
+                       (step_exps k penv ex process_num environment) ;;
     match command with
     | GStr command =>
-      name <- expand (k_pname k) ex ;;
-      Ok ({| p_class := k_class k; p_name := name; p_uid := k_uid k; p_command := command;
-             p_directory := gstr_opt directory; p_umask := k_umask k; p_priority := k_priority k;
-             p_autostart := k_autostart k; p_autorestart := k_autorestart k;
-             p_startsecs := k_startsecs k; p_startretries := k_startretries k;
-             p_stdout := {| l_file := olf; l_capture := k_ocap k; l_events := k_oev k;
-                            l_syslog := osy; l_backups := obu; l_maxbytes := omb |};
-             p_stderr := {| l_file := elf; l_capture := k_ecap k; l_events := k_eev k;
-                            l_syslog := esy; l_backups := ebu; l_maxbytes := emb |};
-             p_stopsignal := k_stopsignal k; p_stopwaitsecs := k_stopwaitsecs k;
-             p_stopasgroup := k_stopasgroup k; p_killasgroup := k_killasgroup k;
-             p_exitcodes := k_exitcodes k; p_redirect_stderr := k_redirect k;
-             p_environment := environment; p_serverurl := k_serverurl k |}, ex)
+      name <- expand (k_pname k) (step_exps k penv ex process_num environment) ;;
+      Ok (mk_proc k name command directory environment o e, step_exps k penv ex process_num environment)
     | _ => Err ENoCommand
     end.
 
@@ -769,7 +790,7 @@ Section Reader.
                  | Some ug => Some (u, snd ug) | None => None end
           | _, _ => owner
           end in
-        let mode := match mode with None => Some 448 | m => m end in
+        let mode := match mode with None => Some fcgi_default_mode | m => m end in
         Ok (GFcgi ("unix://" ++ path) backlog mode owner)
     else
       match owner, mode with
